@@ -1,4 +1,94 @@
+(** C17: local files are read as filter lists only when matching configured
+    safe patterns.  Only statements here; the model is Model/SafeFS.v (over
+    Base/Glob.v = filepath.Match and Base/PathClean.v = filepath.Clean), the
+    vocabulary ([safe], [ev_ok]) and the proofs are in Proofs/SafeFS.v.
+
+    An event [(loc, src)] records what [reader] chose for a list location at
+    download time: [OpenFile p], [HttpGet u] or [Reject k].  [run w st ops]
+    gives the status and the events of every step of a history. *)
+From Coq Require Import List NArith.
 From AGH Require Import Base.Run Base.Bytes Base.PathClean Base.Glob Model.SafeFS Proofs.SafeFS.
-Theorem C17_relative_never_file : forall pats loc, is_abs loc = false -> reader pats loc = HttpGet loc.
+Import ListNotations.
+
+(** In every world, from every starting state (configured, planted or reached
+    by an earlier history) and along every history of add / set-url / refresh:
+    a file is opened only for an absolute location, it is the cleaned
+    location, and some configured pattern matches it. *)
+Theorem C17_open_implies_safe : forall w st ops s evs loc p,
+  In (s, evs) (snd (run w st ops)) -> In (loc, OpenFile p) evs ->
+  is_abs loc = true /\ p = clean loc /\ safe (w_pats w) p.
+Proof. exact open_implies_safe. Qed.
+Print Assumptions C17_open_implies_safe.
+
+(** The same at the level of the single decision. *)
+Theorem C17_reader_open : forall pats loc p,
+  reader pats loc = OpenFile p -> is_abs loc = true /\ p = clean loc /\ safe pats p.
+Proof. exact reader_open. Qed.
+Print Assumptions C17_reader_open.
+
+(** Validation at add / set-url accepts an absolute location only if it
+    exists and is safe, and then the reader opens exactly that path. *)
+Theorem C17_validate_abs : forall pats ex uok loc,
+  validate_url pats ex uok loc = None -> is_abs loc = true ->
+  ex (clean loc) = true /\ safe pats (clean loc).
+Proof. exact validate_accepts_abs. Qed.
+Print Assumptions C17_validate_abs.
+
+Theorem C17_validate_reader_agree : forall pats ex uok loc,
+  is_abs loc = true -> validate_url pats ex uok loc = None ->
+  reader pats loc = OpenFile (clean loc).
+Proof. exact validate_reader_agree. Qed.
+Print Assumptions C17_validate_reader_agree.
+
+Theorem C17_no_patterns_no_file : forall w st ops s evs loc p,
+  w_pats w = [] -> In (s, evs) (snd (run w st ops)) -> ~ In (loc, OpenFile p) evs.
+Proof. exact no_patterns_no_file. Qed.
+Print Assumptions C17_no_patterns_no_file.
+
+(** A location that is not absolute (relative path, file:, ftp:, any scheme)
+    is only ever handed to the HTTP client. *)
+Theorem C17_relative_never_file : forall w st ops s evs loc src,
+  In (s, evs) (snd (run w st ops)) -> In (loc, src) evs -> is_abs loc = false ->
+  src = HttpGet loc.
 Proof. exact relative_never_file. Qed.
 Print Assumptions C17_relative_never_file.
+
+Theorem C17_scheme_not_absolute : forall c rest, c <> slash -> is_abs (c :: rest) = false.
+Proof. exact scheme_not_abs. Qed.
+Print Assumptions C17_scheme_not_absolute.
+
+(** The opened path has no empty, "." or ".." element, and a class-free
+    pattern matches it only if both have the same number of separators:
+    [*] and [?] never stand for '/'. *)
+Theorem C17_no_traversal : forall pats loc p g,
+  reader pats loc = OpenFile p ->
+  (p = [slash] \/ exists segs, segs <> [] /\ split slash p = [] :: segs /\ Forall real segs) /\
+  (In g pats -> plain_pattern g = true -> glob_match g p = GOk true ->
+   count sep p = count sep g).
+Proof. exact no_traversal. Qed.
+Print Assumptions C17_no_traversal.
+
+Theorem C17_star_never_matches_separator : forall pat name,
+  plain_pattern pat = true -> glob_match pat name = GOk true -> count sep name = count sep pat.
+Proof. exact glob_match_slashes. Qed.
+Print Assumptions C17_star_never_matches_separator.
+
+(** Refresh applies the same predicate immediately before opening: an entry
+    with an absolute, unsafe location is not read and stays as it was. *)
+Theorem C17_recheck_at_refresh : forall w st white st' s evs f,
+  refresh w st white = (st', s, evs) ->
+  In f (get_list st white) -> is_abs (f_url f) = true ->
+  ~ safe (w_pats w) (clean (f_url f)) ->
+  In f (get_list st' white) /\
+  forall src, In (f_url f, src) evs -> exists k, src = Reject k.
+Proof. exact recheck_at_refresh. Qed.
+Print Assumptions C17_recheck_at_refresh.
+
+(** Cleaning: idempotent, keeps absolute paths absolute. *)
+Theorem C17_clean_idempotent : forall p, clean (clean p) = clean p.
+Proof. exact clean_idem. Qed.
+Print Assumptions C17_clean_idempotent.
+
+Theorem C17_clean_absolute : forall p, is_abs (clean p) = is_abs p.
+Proof. exact clean_is_abs. Qed.
+Print Assumptions C17_clean_absolute.
